@@ -67,7 +67,7 @@ def oracle_check(r):
 def run(ctx, ncases=None):
     ok = ctx.prove('LPVerif.Props.C01', 'LPVerif/Props/C01.lean')
     build = ctx.build()
-    n = ncases or (150 if ctx.quick else 8000)
+    n = ncases or (300 if ctx.quick else 8000)
     if ctx.broken:
         n *= 4   # a proof / bridge / driver obligation broke: widen the search for a failing input
     cases = []
